@@ -130,28 +130,90 @@ Definition print_block (x : id) (ps : list (cond * expr)) : option (list nmstmt)
 Definition print_single (x : id) (ps : list (cond * expr)) : list nmstmt :=
   map (fun cv => NS (SIf (fst cv) x (snd cv))) ps.
 
+(* has_else = expression[-1][1] is true   (after the stripping) *)
+Definition has_else (ps : list (cond * expr)) : bool :=
+  match last_opt ps with Some (c, _) => is_ctrue c | None => false end.
+(* all(len(e.args) == 0 for e in expressions) and not has_else *)
+Definition single_form (ps : list (cond * expr)) : bool :=
+  forallb (fun cv => is_atom (snd cv)) ps && negb (has_else ps).
+
+Definition stripped_ps (D : list id) (x : id) (ps0 : list (cond * expr)) : list (cond * expr) :=
+  if has_added_else D x ps0 then removelast ps0 else ps0.
+
 Definition print_piecewise (D : list id) (x : id) (ps0 : list (cond * expr)) : option (list nmstmt) :=
-  let ps := if has_added_else D x ps0 then removelast ps0 else ps0 in
-  match last_opt ps with
-  | None => None                                   (* expression[-1] : IndexError *)
-  | Some (cl, _) =>
-      let has_else := is_ctrue cl in
-      match ps with
-      | [(c, v)] => if is_ctrue c then None (* 'IF (True) X = ..' does not parse *)
-                    else Some [NS (SIf c x v)]
-      | _ => if forallb (fun cv => is_atom (snd cv)) ps && negb has_else
-             then Some (print_single x ps)
-             else print_block x ps
-      end
+  let ps := stripped_ps D x ps0 in
+  match ps with
+  | [] => None                                     (* expression[-1] : IndexError *)
+  | [(c, v)] => if is_ctrue c then None            (* 'IF (True) X = ..' does not parse *)
+                else Some [NS (SIf c x v)]
+  | _ => if single_form ps then Some (print_single x ps) else print_block x ps
   end.
 
+(* What NMTranPrinter cannot print as readable NM-TRAN (expressions are otherwise printed by sympy's
+   StrPrinter, an engine validated by the reference parser on every output):
+   - _print_Function prints only args[0]: a two-argument function (MOD, ...) loses its second argument
+     and the text is not valid NM-TRAN;
+   - _print_Pow with exponent -1 calls expr.base.make_args, which does not exist for an applied
+     function: 1/LOG(A) raises AttributeError — unless the power is a factor of a product (sympy's
+     _print_Mul prints the quotient itself). *)
+Definition F_POW_ID : id := 5%positive.
+Definition is_minus_one (e : expr) : bool := match e with Num q => Qeq_bool q (-1) | _ => false end.
+Definition is_fn1 (e : expr) : bool := match e with Fn1 _ _ => true | _ => false end.
+(* g_no_fn2: no two-argument function call *)
+Fixpoint no_fn2 (e : expr) : bool :=
+  match e with
+  | Num _ | Sym _ | PwNil => true
+  | Fn1 _ a | Neg a => no_fn2 a
+  | Fn2 f a b => Pos.eqb f F_POW_ID && no_fn2 a && no_fn2 b
+  | Add a b | Mul a b | Div a b => no_fn2 a && no_fn2 b
+  | PwCons c v rest => no_fn2c c && no_fn2 v && no_fn2 rest
+  end
+with no_fn2c (c : cond) : bool :=
+  match c with
+  | CTrue | CFalse => true
+  | CRel _ a b => no_fn2 a && no_fn2 b
+  | CAnd a b | COr a b => no_fn2c a && no_fn2c b
+  | CNot a => no_fn2c a
+  end.
+(* g_no_invfn: no  f(..)**(-1)  outside a product *)
+Fixpoint no_invfn (under_mul : bool) (e : expr) : bool :=
+  match e with
+  | Num _ | Sym _ | PwNil => true
+  | Fn1 _ a | Neg a => no_invfn false a
+  | Fn2 f a b =>
+      (negb (Pos.eqb f F_POW_ID) || under_mul || negb (is_fn1 a && is_minus_one b)) &&
+      no_invfn false a && no_invfn false b
+  | Add a b | Div a b => no_invfn false a && no_invfn false b
+  | Mul a b => no_invfn true a && no_invfn true b
+  | PwCons c v rest => no_invfnc c && no_invfn false v && no_invfn false rest
+  end
+with no_invfnc (c : cond) : bool :=
+  match c with
+  | CTrue | CFalse => true
+  | CRel _ a b => no_invfn false a && no_invfn false b
+  | CAnd a b | COr a b => no_invfnc a && no_invfnc b
+  | CNot a => no_invfnc a
+  end.
+Definition g_no_fn2 (e : expr) : bool := no_fn2 e.
+Definition g_no_invfn (e : expr) : bool := no_invfn false e.
+Definition g_printable (e : expr) : bool := g_no_fn2 e && g_no_invfn e.
+
 (* nmtran_assignment_string(assignment, defined_symbols, rvs, trans), for an Assignment X = e.
+   None = the call raises or the text is not readable NM-TRAN.
    (The `sign` special case is not modelled: expressions containing sign() are outside the model.) *)
 Definition print_stmt (D : list id) (x : id) (e : expr) : option (list nmstmt) :=
-  if is_pw e then print_piecewise D x (pieces e) else Some [NS (SAssign x e)].
+  if negb (g_printable e) then None
+  else if is_pw e then print_piecewise D x (pieces e) else Some [NS (SAssign x e)].
 
 (* ---- guards ------------------------------------------------------------------------------- *)
-(* which form the printer chooses: 0 plain, 1 one logical IF, 2 several logical IFs, 3 block *)
+Definition conds_of (ps : list (cond * expr)) : list cond := map fst ps.
+Definition stripped (D : list id) (x : id) (e : expr) : list (cond * expr) := stripped_ps D x (pieces e).
+
+(* the printer chooses the several-logical-IFs form *)
+Definition several_ifs (D : list id) (x : id) (e : expr) : bool :=
+  is_pw e && (2 <=? length (stripped D x e)) && single_form (stripped D x e).
+
+(* which form the printer chooses: 0 plain, 1 one logical IF, 2 several logical IFs, 3 block, 4 none *)
 Definition print_form (D : list id) (x : id) (e : expr) : nat :=
   match print_stmt D x e with
   | Some [NS (SAssign _ _)] => 0
@@ -160,8 +222,6 @@ Definition print_form (D : list id) (x : id) (e : expr) : nat :=
   | Some _ => 2
   | None => 4
   end.
-
-Definition conds_of (ps : list (cond * expr)) : list cond := map fst ps.
 
 (* number of conditions that hold at r; None if one of them cannot be evaluated *)
 Fixpoint count_true (fi : finterp) (r : env) (cs : list cond) : option nat :=
@@ -174,31 +234,32 @@ Fixpoint count_true (fi : finterp) (r : env) (cs : list cond) : option nat :=
       end
   end.
 
-(* g_disjoint: in the several-logical-IFs form at most one condition holds at the point, all
-   conditions can be evaluated, and the assigned symbol does not occur in a condition (a later IF
-   would otherwise see the value assigned by an earlier one).  True for the other forms. *)
-Definition stripped (D : list id) (x : id) (e : expr) : list (cond * expr) :=
-  let ps0 := pieces e in if has_added_else D x ps0 then removelast ps0 else ps0.
+(* g_wf: the expression is a sympy Piecewise as sym2coq exports it (the chain ends in PwNil) or
+   not a Piecewise at all — a fact about the representation, not about the code. *)
+Fixpoint pw_tail_nil (e : expr) : bool :=
+  match e with PwCons _ _ rest => pw_tail_nil rest | PwNil => true | _ => false end.
+Definition g_wf (e : expr) : bool := if is_pw e then pw_tail_nil e else true.
 
+(* g_self_free: in the several-logical-IFs form the assigned symbol does not occur in a condition
+   (a later IF would otherwise see the value assigned by an earlier one). *)
 Definition g_self_free (D : list id) (x : id) (e : expr) : bool :=
-  match print_form D x e with
-  | 2 => negb (memp x (flat_map free_symsc (conds_of (stripped D x e))))
-  | _ => true
-  end.
+  if several_ifs D x e then negb (memp x (flat_map free_symsc (conds_of (stripped D x e)))) else true.
 
+(* g_disjoint: in the several-logical-IFs form all conditions can be evaluated at the point and at
+   most one of them holds (NM-TRAN executes every IF: the LAST true one wins; Piecewise: the FIRST). *)
 Definition g_disjoint (fi : finterp) (r : env) (D : list id) (x : id) (e : expr) : bool :=
-  match print_form D x e with
-  | 2 => match count_true fi r (conds_of (stripped D x e)) with
-         | Some n => n <=? 1
-         | None => false
-         end
-  | _ => true
-  end.
+  if several_ifs D x e
+  then match count_true fi r (conds_of (stripped D x e)) with
+       | Some n => n <=? 1
+       | None => false
+       end
+  else true.
 
-(* g_zero_fresh: when the printer drops a final (0, True) piece because the symbol is "not defined",
-   the variable must really be zero-initialised at this point (NM-TRAN: a variable that is only
+(* g_zero_fresh: when the printer drops a final (0, True) piece because the symbol is "not defined"
+   (not in D), the variable must really be zero at this point (NM-TRAN: a variable that is only
    conditionally assigned is 0 when no condition holds).  [D] is what the printer believes is
-   defined; the hypothesis compares it with the actual state. *)
+   defined — the symbols assigned earlier IN THE SAME RECORD; the conjunct compares that belief
+   with the actual state. *)
 Definition drops_zero_else (D : list id) (x : id) (e : expr) : bool :=
   is_pw e &&
   match last_opt (pieces e) with
@@ -210,7 +271,16 @@ Definition g_zero_fresh (r : env) (D : list id) (x : id) (e : expr) : bool :=
   if drops_zero_else D x e then oq_is_zero (r x) else true.
 
 Definition guard_print (fi : finterp) (r : env) (D : list id) (x : id) (e : expr) : bool :=
-  g_self_free D x e && g_disjoint fi r D x e && g_zero_fresh r D x e.
+  g_wf e && g_self_free D x e && g_disjoint fi r D x e && g_zero_fresh r D x e.
+
+(* g_sympy: what sympy guarantees about a Piecewise it has constructed (a True condition only in the
+   last piece and never alone) — a fact about inputs, used to show the printer total *)
+Definition g_sympy (e : expr) : bool :=
+  if is_pw e then
+    let ps := pieces e in
+    pw_tail_nil e && forallb (fun cv => negb (is_ctrue (fst cv))) (removelast ps) &&
+    ((2 <=? length ps) || match ps with (c, _) :: _ => negb (is_ctrue c) | [] => false end)
+  else true.
 
 (* A syntactic sufficient condition for g_disjoint at EVERY point: all conditions are equalities of
    one and the same symbol with pairwise different numbers (what categorical covariate effects
